@@ -222,7 +222,10 @@ def run_ops(case):
             elif op == "rename":
                 o = pick(objs() + groups(), a)
                 if o is not None:
-                    o.name = fresh("renamed") + ("  " if step % 2 else "") if step % 3 else "  " + fresh("renamed")  # names are free text: blanks are kept
+                    if step % 4 == 3:
+                        o.name = ws.name  # any text is a valid name, the project group's own name included
+                    else:
+                        o.name = fresh("renamed") + ("  " if step % 2 else "") if step % 3 else "  " + fresh("renamed")  # names are free text: blanks are kept
             elif op == "flag":
                 o = pick(objs(), a)
                 if o is not None:
@@ -333,6 +336,7 @@ class ApiHistories(Contract):
         [("group", 0, 0), ("group", 0, 0), ("points", 0, 0), ("curve", 1, 0), ("move", 0, 1), ("reopen", 0, 0), ("move", 1, 0), ("reopen", 0, 0)],
         [("group", 0, 0), ("points", 0, 0), ("points", 0, 0), ("group", 0, 0), ("remove_ws", 2, 0), ("gc", 0, 0), ("reopen", 0, 0)],
         [("points", 0, 0), ("data", 0, 0), ("copy", 0, 0), ("rename", 0, 0), ("reopen", 0, 0), ("remove_parent", 0, 0), ("reopen", 0, 0)],
+        [("points", 0, 0), ("data", 0, 0), ("flag", 0, 0), ("rename", 0, 0), ("flag", 0, 0), ("reopen", 0, 0), ("rename", 0, 0), ("reopen", 0, 0)],
     ]
 
     def native_cases(self, tier, rng):
